@@ -1,6 +1,7 @@
 CONSTANTS
   Depth = 1
   Wide = TRUE
+  Thin = 1
   Export = TRUE
 SPECIFICATION Spec
 INVARIANT TypeOK
